@@ -73,6 +73,23 @@ class Origin(EdgeData):
         return [self.origin]
 
 
+class Direction(Vector):
+    """A direction (like an arc's axis): it is rotated and mirrored
+    together with the entity but never displaced or scaled"""
+
+    def translate(self, displacement):
+        return self
+
+    def scale(self, ratio, origin=None):
+        return self
+
+    def rotate(self, angle, axis, origin=None):
+        return super().rotate(angle, axis, [0, 0, 0])
+
+    def mirror(self, normal, origin=None):
+        return super().mirror(normal, [0, 0, 0])
+
+
 class Angle(EdgeData):
     """Parameters for an arc edge, alternative definition
     by Foundation (.org); defined with sector angle and axis
@@ -88,7 +105,7 @@ class Angle(EdgeData):
 
     def __init__(self, angle: float, axis: VectorType):
         self.angle = angle
-        self.axis = Vector(f.unit_vector(axis))
+        self.axis = Direction(f.unit_vector(axis))
 
     def translate(self, displacement):
         """Axis is not to be translated"""
